@@ -62,7 +62,7 @@ def finish(prop, tier, seed, results, reg, table, wall, timeout_ms):
     lines = []
     violations = []
     known_printed = []
-    rdir = os.path.join(VERIF, "replays", prop)
+    rdir = os.path.join(VERIF, "replays" if os.environ.get("PYVC_REPO", "/repo") == "/repo" else "replays_scratch", prop)
     for r, o in refuted:
         match = None
         for f in findings:
@@ -204,8 +204,11 @@ def finish(prop, tier, seed, results, reg, table, wall, timeout_ms):
         "wall_s": round(wall, 3),
         "violations": len(violations),
     }
-    os.makedirs(os.path.join(VERIF, "evidence"), exist_ok=True)
-    with open(os.path.join(VERIF, "evidence", prop + ".json"), "w") as fh:
+    # runs against a scratch copy of the repository (PYVC_REPO set) never overwrite the evidence
+    # of the real tree
+    evdir = "evidence" if os.environ.get("PYVC_REPO", "/repo") == "/repo" else "evidence_scratch"
+    os.makedirs(os.path.join(VERIF, evdir), exist_ok=True)
+    with open(os.path.join(VERIF, evdir, prop + ".json"), "w") as fh:
         json.dump(ev, fh, indent=1, default=str)
     # ------------------------------------------------------------------ stdout
     print("pyvc %s tier=%s: %d units, %d obligations, %d proved, %d refuted, %d unknown, %.1fs"
